@@ -53,7 +53,7 @@ func c08Doc(n, nameLen int, unicode bool) (*spec.Swagger, []string, [][]bool, []
 			}
 			edge[i][j] = true
 			r := c06Ref(names[j])
-			switch (i + j) % 3 {
+			switch (i + j + vrfParam("edgeshift", 0)) % 4 { // distinct holder kind for each target j of one definition (n <= 4)
 			case 0:
 				if s.Properties == nil {
 					s.Properties = map[string]spec.Schema{}
@@ -63,6 +63,9 @@ func c08Doc(n, nameLen int, unicode bool) (*spec.Swagger, []string, [][]bool, []
 				s.Items = &spec.SchemaOrArray{Schema: &r}
 			case 2:
 				s.AllOf = append(s.AllOf, r)
+			case 3:
+				// additionalItems without items: a position an analyzer could forget
+				s.AdditionalItems = &spec.SchemaOrBool{Allows: true, Schema: &r}
 			}
 		}
 		doc.Definitions[names[i]] = s
